@@ -37,7 +37,7 @@ func c09Gen(r *driver.Rand, thorough bool) *driver.Plan {
 	if (stage == "fork.Map" || stage == "fork.FMap") && r.Chance(1, 2) {
 		p.Mode = driver.Pick(r, "try", "try", "lift")
 		if r.Chance(1, 3) {
-			p.SetX("err_kind", 1+r.Intn(2))
+			p.SetX("err_kind", 1+r.Intn(3))
 		}
 		for i := 0; i < n; i++ {
 			if r.Chance(1, 3) {
